@@ -345,6 +345,9 @@ class HistogramBase(abc.ABC):
                         if np.any(array % 1.0):
                             raise ValueError("Data contain non-integer values.")
             for array in (self.frequencies, self.errors2):
+                if array.dtype.kind == "f":
+                    # Compare with enough precision to represent the limits of the target type exactly
+                    array = array.astype(np.longdouble)
                 if np.any((array > type_info.max) | (array < type_info.min)):
                     raise ValueError("Data contain values outside the specified range.")
 
